@@ -17,7 +17,10 @@ is evaluated on the implementation's observations only:
   O2 a command-line value wins over --config, which wins over the file, which wins over defaults,
   O3 the result does not depend on the working directory,
   O4 an unknown key is reported and does not abort,
-  O5 an ill-typed value is rejected with a message naming the option.
+  O5 an ill-typed value is rejected with a message naming the option,
+  O6 an option written in a settings file / --config and *not* given on the command line is
+     effective with the written value (file options override defaults; an absent switch does
+     not override the file) - the expected value is computed from the abstract value alone.
 """
 from __future__ import annotations
 
@@ -215,8 +218,8 @@ class Impl:
 # --------------------------------------------------------------------------
 
 
-def model_request(dirp, pkg, toml_kw, md_lines, cfg_kw, cli_kv):
-    r = ["c15.eff", dirp, pkg]
+def model_request(dirp, pkg, toml_kw, md_lines, cfg_kw, cli_kv, cmd="c15.eff"):
+    r = [cmd, dirp, pkg]
     for kw in (toml_kw,):
         if kw is None:
             r += ["0", "0"]
@@ -256,11 +259,23 @@ def parse_model(resp, fields):
 # abstract options and their three spellings
 # --------------------------------------------------------------------------
 
+# Representative and *boundary* spellings of each type: leading / trailing punctuation (dots, dashes,
+# quotes), mixed case, characters that are syntax in one of the formats (':', '=', '#', '"', ';', '[').
+# A value must be writable in all three formats: no leading / trailing blanks, no empty list item.
 WORDS = ["alpha", "Beta", "x1", "a b", "v:1", "k=v", "it's", 'say "hi"', "50%off", "#tag", "a,b", "[x]", "e\\f",
-         "http://h.org/p?q=1", "ünï", "0", "true", "a  b", "-n", "x;y"]
-PATHS = ["src", "./src", "a/b", "../up", "a//b/./c", "x/../y", "sub dir/f", "/abs/dir", "/abs/../r", ".", "a/.", "deep/er/est/"]
-EXTS = ["f90", "F90", "f", "for", "F", "inc", "f77", "FOR", "fpp", "f03"]
-MARKS = ["!", ">", "*", "|", "<", "#", "~", ""]
+         "http://h.org/p?q=1", "ünï", "0", "true", "a  b", "-n", ".dot", "..", "...", "trail.", "UPPER", "'q'", '"dq"',
+         "-", "{t}", "x;y"]
+PATHS = ["src", "./src", "a/b", "../up", "a//b/./c", "x/../y", "sub dir/f", "/abs/dir", "/abs/../r", ".", "a/.", "deep/er/est/",
+         ".hidden", "a/.hid/b", "..twodots", "UPPER/Case", "a.b/c.d"]
+EXTS = ["f90", "F90", "f", "for", "F", "inc", "f77", "FOR", "fpp", "f03", ".f90", "f90.in", "f-x", "Ff"]
+MARKS = ["!", ">", "*", "|", "<", "#", "~", "", "!!", "!>", "."]
+FT_EXTS = ["cpp", "sh", "py", "inc", "c", ".inc", "..x", "F90", "c++", "h.in", "x_", "-m", "k:v", "Ü"]
+FT_COMMENTS = ["//", "#", "!", "--", ";", "!>", "%", "C", "'", "..", ".c", "REM"]
+FT_LEXERS = ["bash", "python", "fortran.FortranFixedLexer", "c++", ".x", "C"]
+DICT_KEYS = ["a", "key2", "my_mod", "iso_c_binding", "K", "with space", "m-1", ".dot", "a.b", "-dash", "ISO_C_BINDING",
+             "'q'", "trail."]
+DICT_VALS = ["v", "http://x.org/a:b", "a = b", "", "two words", "q=1", ".lead", "UPPER", "'quoted'", '"dq"', "trail.",
+             "./rel/doc", "-"]
 DISPLAY = ["public", "private", "protected", "PUBLIC", "Private", "none"]
 
 
@@ -281,7 +296,7 @@ def gen_value(rng, key, tag):
     if tag == "bool":
         return rng.random() < 0.5
     if tag == "int":
-        return rng.choice([0, 1, 2, 7, 10, -3, 10000, 10 ** 12, -1])
+        return rng.choice([0, 1, 2, 7, 10, -3, 10000, 10 ** 12, -1, 2 ** 31, 2 ** 63, -(2 ** 31) - 1])
     if tag in ("str", "optStr"):
         return gen_str(rng, key)
     if tag in ("path", "optPath"):
@@ -292,12 +307,12 @@ def gen_value(rng, key, tag):
     if tag == "listPath":
         return [rng.choice(PATHS) for _ in range(rng.choice([1, 1, 2, 3]))]
     if tag == "dictStr":
-        ks = rng.sample(["a", "key2", "my_mod", "iso_c_binding", "K", "with space", "m-1"], rng.choice([1, 2, 3]))
-        return {k: rng.choice(["v", "http://x.org/a:b", "a = b", "", "two words", "q=1"]) for k in ks}
+        ks = rng.sample(DICT_KEYS, rng.choice([1, 2, 3]))
+        return {k: rng.choice(DICT_VALS) for k in ks}
     if tag == "dictEft":
-        ks = rng.sample(["cpp", "sh", "py", "inc", "c"], rng.choice([1, 2, 3]))
-        return [dict(extension=k, comment=rng.choice(["//", "#", "!", "--"]),
-                     **({"lexer": rng.choice(["bash", "python", "fortran.FortranFixedLexer"])} if rng.random() < 0.5 else {}))
+        ks = rng.sample(FT_EXTS, rng.choice([1, 2, 3, 4]))
+        return [dict(extension=k, comment=rng.choice(FT_COMMENTS),
+                     **({"lexer": rng.choice(FT_LEXERS)} if rng.random() < 0.5 else {}))
                 for k in ks]
     raise ValueError(tag)
 
@@ -314,6 +329,8 @@ def md_lines_for(rng, key, tag, v, sep):
         s = str(v)
         if v >= 1000 and rng.random() < 0.3:
             s = f"{v:_}"
+        elif v >= 0 and rng.random() < 0.15:
+            s = "00" + s
         if v >= 0 and rng.random() < 0.2:
             s = "+" + s
         vals = [s]
@@ -444,6 +461,71 @@ def expected_cli(proj: Path, dest, kind, tag, vals):
     return canon(dest, "L" + US.join("S" + x for x in vals))
 
 
+def file_expectation(proj: Path, key, tag, v, obs: dict, licenses: dict, intrinsic=()):
+    """O6.  What the property says the effective value of an option is that is written in a
+    settings file (or --config) and not given on the command line: the written value, in the
+    option's declared type, relative paths taken from the project directory.  Computed from the
+    abstract value only.  For the options whose effective value is documented to be *derived*
+    (display is case-insensitive, extensions includes fpp_extensions, exclude_dir includes the
+    output directory, extra_mods includes the intrinsic modules, a licence name stands for its
+    licence text, an empty project_url means "relative") the written items must be contained.
+    Returns None when satisfied, else a description of what was expected - or a pair
+    (known-finding class, description) when the failing input is, by its shape, in a listed class
+    (`intrinsic`: names of the built-in module table, for the class of C15-extra-mods-intrinsic-wins)."""
+    def norm(p):
+        return "P" + os.path.normpath(os.path.join(str(proj), p))
+
+    if key == "directory":
+        return None   # not an option: the settings object's record of the project directory, always recomputed
+    got = obs.get(key)
+    items = set(got[1:].split(US)) if got and got[0] in "LD" and len(got) > 1 else set()
+    if tag == "bool":
+        exp = "B1" if v else "B0"
+    elif tag == "int":
+        exp = f"I{v}"
+    elif tag in ("str", "optStr"):
+        exp = "S" + v
+        if key in ("license", "doc_license") and v.lower() in licenses:
+            exp = "S" + licenses[v.lower()]
+        if key == "project_url" and v == "":
+            return None
+        if key == "creation_date" and "%" in v:
+            return None
+    elif tag in ("path", "optPath"):
+        exp = norm(v)
+    elif tag in ("listStr", "plainList", "listPath"):
+        want = [norm(x) if tag == "listPath" else "S" + x for x in v]
+        if key == "display":
+            want = ["S" + x.lower() for x in v]
+        if key == "fpp_extensions" and obs.get("preprocess") != "B1":
+            want = []
+        if key in ("extensions", "exclude_dir"):
+            missing = [w for w in want if w not in items]
+            return f"items {missing!r} of the written list" if missing else None
+        exp = canon(key, "L" + US.join(want))
+    elif tag == "dictStr":
+        d = {}
+        for k, x in v.items():
+            d[k] = x
+        want = [k + RS + "S" + x for k, x in d.items()]
+        if key == "extra_mods":
+            missing = [w for w in want if w not in items]
+            if missing and all(w.split(RS)[0] in intrinsic for w in missing):
+                return ("C15-extra-mods-intrinsic-wins", f"entries {missing!r} of the written table")
+            return f"entries {missing!r} of the written table" if missing else None
+        exp = canon(key, "D" + US.join(want))
+    elif tag == "dictEft":
+        d = {}
+        for ft in v:
+            d[ft["extension"]] = ft
+        exp = canon(key, "D" + US.join(
+            e + RS + "E" + e + GS + ft["comment"] + ((GS + ft["lexer"]) if ft.get("lexer") is not None else "")
+            for e, ft in d.items()))
+    else:
+        return None
+    return None if got == exp else exp
+
+
 # --------------------------------------------------------------------------
 # streams
 # --------------------------------------------------------------------------
@@ -454,8 +536,9 @@ class Ctx:
         self.rep, self.impl, self.drv, self.t, self.rng = rep, impl, drv, tables, rng
         self.proj, self.pkg = proj, pkg
         self.fields = {n: tag for n, tag, _ in tables["schema"]}
-        self.cli = {d: (k, fl) for d, k, fl in tables["cli"]}
+        self.cli = {e[0]: (e[1], e[2]) for e in tables["cli"]}
         self.pending = []   # (model request, impl obs, description)
+        self.eff_cmd = "c15.eff"   # "c15.effr": variant `repaired` of the extra_mods merge (decided in run())
         self.hist = {}
         self.samples = []
         self.distinct = set()
@@ -503,7 +586,7 @@ class Ctx:
         except tomllib.TOMLDecodeError:
             model_ok = False
         if model_ok and all(encodable(v) for kw in (t_kw, c_kw) if kw for v in kw.values()):
-            req = model_request(str(self.proj), self.pkg, t_kw, md_lines, c_kw, cli_kv)
+            req = model_request(str(self.proj), self.pkg, t_kw, md_lines, c_kw, cli_kv, self.eff_cmd)
             self.pending.append((req, obs, desc or {}))
         else:
             self.count("model:not-applicable(toml text not parseable)")
@@ -592,10 +675,11 @@ def well_typed_case(cx: Ctx, opts, cli, tag):
         over = [o for o in opts if rng.random() < 0.5] or [opts[0]]
         base = []
         for key, t, v in opts:
-            if (key, t, v) in over and rng.random() < 0.7:
-                # overridden by --config; options that are cross-validated when the file is
-                # loaded keep their value (an invalid *file* is rejected whatever --config says)
-                cross = "docmark" in key or "extensions" in key or key in ("extra_mods", "external")
+            # overridden by --config; options that are cross-validated when the file is loaded stay
+            # in the file with their value (an invalid *file* is rejected whatever --config says -
+            # also when the clash is with the *default* of an option that only --config sets)
+            cross = "docmark" in key or "extensions" in key or key in ("extra_mods", "external")
+            if (key, t, v) in over and (cross or rng.random() < 0.7):
                 base.append((key, t, v if cross else gen_value(rng, key, t)))
             elif (key, t, v) not in over:
                 base.append((key, t, v))
@@ -642,11 +726,31 @@ def well_typed_case(cx: Ctx, opts, cli, tag):
             continue
         for dest, vals in cli.items():
             kind = cx.cli[dest][0]
+            if dest not in cx.fields:
+                continue   # reported by cli_single_stream (an option that sets no settings field)
             exp = expected_cli(cx.proj, dest, kind, cx.fields[dest], vals)
             if o[1].get(dest) != exp:
                 cx.n_oracle_fail += 1
                 rep.failing_input(dict(desc, oracle="O2 command line wins", fmt=f, option=dest,
                                        expected=exp, observed=o[1].get(dest)), None)
+    # ---- O6: what is written in the file / --config and not given on the command line is effective
+    for f, o in runs.items():
+        if o[0] != "ok":
+            continue
+        for key, t, v in opts:
+            if key in cli:
+                continue
+            miss = file_expectation(cx.proj, key, t, v, o[1], cx.t["licenses"], cx.t["intrinsic"])
+            if miss is not None:
+                cx.n_oracle_fail += 1
+                cls = None
+                if isinstance(miss, tuple):
+                    cls, miss = miss
+                if "config" in f:
+                    cls = classify_config_diff(opts, hints, kw, ref)
+                rep.failing_input(dict(desc, oracle="O6 written value is effective when the option is absent from the command line",
+                                       fmt=f, option=key, written=v, expected=miss, observed=o[1].get(key), md=md,
+                                       config=config_for(kw)), cls)
     # ---- O3
     if strip_time(o3) != strip_time(runs[fmt3]):
         cx.n_oracle_fail += 1
@@ -669,6 +773,38 @@ def defaults_oracle(cx: Ctx, baseline, opts, cli, runs):
             cx.n_oracle_fail += 1
             cx.rep.failing_input({"oracle": "O2 defaults", "option": k, "default": b, "observed": v,
                                   "options": opts, "cli": cli}, None)
+
+
+def cli_single_stream(cx: Ctx, baseline):
+    """O2 per command-line option: every settings-carrying option of the parser, given alone on an
+    otherwise empty project, sets a settings option to the given value, and - when it is not given -
+    leaves all of them at their defaults (the baseline run)."""
+    for dest, (kind, flags) in cx.cli.items():
+        tag = cx.fields.get(dest)
+        if kind in ("storeTrue", "storeFalse"):
+            val = True
+        elif kind == "store":
+            val = "a/b" if tag in ("path", "optPath") else "r1"
+        elif kind == "append":
+            val = ["../up", "a/b"] if tag == "listPath" else ["p1 = http://a.org/x"] if tag == "dictStr" else ["A", "b"]
+        else:
+            continue   # action outside the table's vocabulary: cli_table_sound does not check any more
+        desc = {"stream": "cli-single", "option": flags, "dest": dest, "value": val}
+        o = cx.run([], None, None, {dest: val}, 0, desc)
+        cx.count("cli-single")
+        if o[0] != "ok":
+            continue
+        if tag is None:
+            cx.n_oracle_fail += 1
+            cx.rep.failing_input(dict(desc, oracle="O2 a command-line option must set a settings option",
+                                      observed=f"sets attribute {dest!r}, which is not a field of ProjectSettings",
+                                      extras=o[2]), None)
+            continue
+        exp = expected_cli(cx.proj, dest, kind, tag, val)
+        got = o[1].get(dest)
+        if got != exp:
+            cx.n_oracle_fail += 1
+            cx.rep.failing_input(dict(desc, oracle="O2 command line wins", expected=exp, observed=got), None)
 
 
 BAD_MD = {
@@ -848,7 +984,8 @@ def micro(cx: Ctx, n):
     types = {"bool": bool, "int": int, "str": str, "optStr": Optional[str], "path": Path, "optPath": Optional[Path],
              "listStr": List[str], "listPath": List[Path], "dictStr": Dict[str, str],
              "dictEft": Dict[str, S.ExtraFileType], "plainList": list}
-    pool = ["true", "False", "x", "a = b", "k: v", "c //", "py # python", "1", "", "a b c d", "no", " = ", "a==b", "k =", "-4", "1_0"]
+    pool = ["true", "False", "x", "a = b", "k: v", "c //", "py # python", "1", "", "a b c d", "no", " = ", "a==b", "k =", "-4", "1_0",
+            ".inc !", "..x ; .lex", "F90\t!>", " .k = .v ", "'q': \"v\"", "007", ".true.", "TRUE ", "-", ".a.b  c.d"]
     for _ in range(n):
         tag = rng.choice(list(types))
         key = rng.choice(["alias", "external", "extra_mods"]) if tag == "dictStr" else "somekey"
@@ -910,6 +1047,15 @@ def replay_known(cx: Ctx, rep):
     o = cx.run(["---", "graph_maxdepth: x", "---"], None, None, {}, 0, {"replay": "md-int"})
     if o[0] == "err" and not names_option(o[3], "graph_maxdepth"):
         rep.failing_input({"witness": "graph_maxdepth: x", "message": o[3][:200]}, "C15-md-int-unnamed")
+    ik = next(iter(cx.t["intrinsic"]), None)
+    if ik is not None:
+        url = "http://example.com/own-doc"
+        for f, o in (("md", cx.run(["---", f"extra_mods: {ik}: {url}", "---"], None, None, {}, 0, {"replay": "extra-mods/md"})),
+                     ("toml", cx.run([], {"extra_mods": {ik: url}}, None, {}, 0, {"replay": "extra-mods/toml"}))):
+            if o[0] == "ok" and (ik + RS + "S" + url) not in o[1]["extra_mods"].split(US) \
+                    and not o[1]["extra_mods"].startswith("D" + ik + RS + "S" + url):
+                rep.failing_input({"witness": f"extra_mods: {ik}: {url}", "fmt": f, "observed": o[1]["extra_mods"][:300]},
+                                  "C15-extra-mods-intrinsic-wins")
     o_md = cx.run(["---", "project: a;b", "---"], None, None, {}, 0, {"replay": "semicolon/md"})
     o_cf = cx.run([], None, {"project": "a;b"}, {}, 0, {"replay": "semicolon/config"})
     if o_md[0] == "ok" and o_cf[0] != "ok":
@@ -986,6 +1132,17 @@ def run(tier: str, seed: int, replay: str | None = None) -> int:
         proj.mkdir()
         pkg = str(Path(ford.__file__).resolve().parent)
         cx = Ctx(rep, impl, drv, tables, rng, proj, pkg)
+        # variant of the model (DESIGN 2.1): does a project entry of extra_mods win over INTRINSIC_MODS?
+        # (a wrong decision here shows up as a correspondence disagreement, never as a pass)
+        ik = next(iter(tables["intrinsic"]), None)
+        if ik is not None:
+            try:
+                with common.quiet():
+                    if impl.S.ProjectSettings(extra_mods={ik: "probe"}).extra_mods.get(ik) == "probe":
+                        cx.eff_cmd = "c15.effr"
+            except Exception:  # noqa
+                pass
+        cx.count("variant:extra_mods-" + ("repaired" if cx.eff_cmd == "c15.effr" else "asIs"))
         if replay:
             return replay_file(cx, rep, lean, replay)
         ev_micro, bad_micro = micro(cx, n_micro)
@@ -993,6 +1150,8 @@ def run(tier: str, seed: int, replay: str | None = None) -> int:
         if baseline[0] != "ok":
             rep.tie_broken(f"the empty project file does not load: {baseline[:4]}")
         replay_known(cx, rep)
+        cli_single_stream(cx, baseline)
+        cx.flush()
         # ---- single: every field x values x formats
         usable = [(n, t) for n, t, _ in tables["schema"] if t not in ("noInit", "other")]
         for name, tag in usable:
@@ -1055,7 +1214,8 @@ def run(tier: str, seed: int, replay: str | None = None) -> int:
     )
     rep.assumptions += [
         "tomllib and argparse are on the implementation side only: the model receives tomllib's parse of the same text "
-        "and the argparse namespace implied by the generated cliTable",
+        "and the options given on the command line; it builds argparse's namespace itself from the regenerated "
+        "(dest, action, default) cliTable",
         "the preprocessor probe in parse_arguments is stubbed (name `subprocess` inside ford/__init__.py)",
         "creation_date is compared only when it contains no strftime directive",
         "ASCII whitespace only (str.strip / str.split on other Unicode spaces not modelled); no '$' in paths (expandvars), "
